@@ -14,7 +14,7 @@ from pyvc.interp import PyRaise, Obj
 from spec import regfields as RF
 
 QUICK_WIDTHS = [1, 2, 3, 4, 5, 6, 7, 8, 16, 32, 64]
-DEPENDENTS = ['C01', 'C02', 'C03', 'C04', 'C05', 'C06', 'C07', 'C08', 'C09', 'C10', 'C11', 'C12', 'C13', 'C18', 'C19', 'C20']
+DEPENDENTS = ['C01', 'C02', 'C03', 'C04', 'C05', 'C06', 'C07', 'C08', 'C09', 'C10', 'C11', 'C12', 'C13', 'C14', 'C18', 'C19', 'C20']
 
 
 def units(tier):
